@@ -42,6 +42,9 @@ func TestMakeReplays(t *testing.T) {
 	write("browser-map-self-reference", "config", "a `browser` map that remaps ./sub to pkg/sub inside pkg: the resolver recurses until the stack overflows (process crash); found by the config sub-check, seed 2", BCase{Entry: "entry.js", Opt: 0, Files: files})
 	files2 := map[string][]byte{"entry.js": []byte("import 'pkg'"), "node_modules/pkg/package.json": []byte(`{"sideEffects":["\ud800*.css"]}`), "node_modules/pkg/index.js": []byte("module.exports = 1")}
 	write("sideeffects-lone-surrogate-pattern", "config", "a sideEffects glob with a lone surrogate escape makes regexp.MustCompile panic (recovered as a `panic:` diagnostic); found by the config sub-check, seed 4", BCase{Entry: "entry.js", Opt: 0, Files: files2})
+	files3 := map[string][]byte{"entry.ts": []byte("import 'aba'"), "tsconfig.json": []byte(`{"compilerOptions":{"paths":{"ab*ba":["./lib/*"]}}}`), "lib/b.ts": []byte("export default 1")}
+	write("tsconfig-paths-overlap", "config", "a tsconfig `paths` key whose prefix and suffix overlap in the import path (\"ab*ba\" for \"aba\") made matchTSConfigPaths slice [2:1] (recovered as a `panic:` diagnostic); pointed out by a seeding sub-agent, then found by the config sub-check (quick tier, every shard) once pattern keys were cut from the specifiers the entry imports", BCase{Entry: "entry.ts", Opt: 0, Files: files3})
+	write("hazard-srcmap-names-nonstring", "srcmap", "non-string entries of `names` with a 5-field mapping that points behind them", SCase{Loader: "js", Src: []byte("foo(bar);\n"), Map: []byte(`{"version":3,"sources":["orig.js"],"sourcesContent":["callee(arg);"],"names":[null,1,{},"orig"],"mappings":"AAAAG"}`), Enc: "base64", Build: false, Opt: sm(2)})
 	write("hazard-pkgjson-exports-empty-array", "config", "", BCase{Entry: "entry.tsx", Opt: 1,
 		Files: mkTree([]byte(`{"imports":{"#int":[],"#int/*":[]}}`), []byte(`{"exports":[],"browser":[],"main":[],"sideEffects":[[]]}`), []byte(`{"extends":"./tsconfig.base.json"}`), []byte(`{"extends":["./tsconfig.json","./missing"],"compilerOptions":{"paths":{"@alias/*":[]}}}`), []byte("export {}"))})
 }
